@@ -4775,6 +4775,13 @@ impl<'a> Parser<'a> {
                 ))));
             }
 
+            // `this is Type`: a predicate about the receiver (static only, like every return type)
+            if self.check(&TokenKind::This) && self.peek_is(&TokenKind::Is) {
+                self.advance(); // consume 'this'
+                self.advance(); // consume 'is'
+                return Ok(Some(Box::new(self.parse_type_annotation()?)));
+            }
+
             // Check for type predicate: param is Type
             // This is an identifier followed by 'is' keyword
             if self.check_identifier() && self.peek_is(&TokenKind::Is) {
